@@ -77,6 +77,8 @@ type Explorer struct {
 	verbose  bool
 	deadline time.Time
 	maxSteps int64
+	crossLog string // worker 0 records its query stream here for the cross-solver check
+	crossMax int
 }
 
 func NewExplorer(p *Program, n int) *Explorer {
@@ -185,7 +187,9 @@ func (e *Explorer) worker(id int) {
 	}
 	defer solver.Close()
 	if p := os.Getenv("GOSX_SMTLOG"); p != "" && id == 0 {
-		solver.logf, _ = os.Create(p)
+		solver.OpenLog(p, 0)
+	} else if e.crossLog != "" && id == 0 {
+		solver.OpenLog(e.crossLog, e.crossMax)
 	}
 	machines := map[string]*Machine{}
 	defer func() {
